@@ -12,7 +12,8 @@ import (
 type bodySpec struct {
 	CT      string `json:"ct"`
 	Body    string `json:"body"`
-	ReadErr int    `json:"read_err,omitempty"` // tag of the error Body.Read raises after the bytes (0: clean EOF)
+	ReadErr int    `json:"read_err,omitempty"` // tag of the error Body.Read (or, with progSpec.Transformer, the body transformer) raises (0: none)
+	UmErr   int    `json:"um_err,omitempty"`   // with progSpec.UmCustom: tag the client's custom unmarshal functions return for this body (0: they decode)
 }
 
 type toutSpec struct {
@@ -63,6 +64,9 @@ type progSpec struct {
 	Checker  int           `json:"checker,omitempty"`  // 0: default; else index into checkers
 	BodyMode string        `json:"body_mode"`          // none | marshal | getbody
 	Real     bool          `json:"real,omitempty"`     // served by a real loopback origin instead of the in-process stub
+	Transformer  bool      `json:"transformer,omitempty"`  // a response body transformer is installed; ReadErr is raised by it
+	UmCustom     bool      `json:"um_custom,omitempty"`    // custom JSON/XML unmarshal functions (SetJsonUnmarshal/SetXmlUnmarshal)
+	Unreplayable bool      `json:"unreplayable,omitempty"` // SetBody(io.Reader)
 	Attempts []attemptSpec `json:"attempts"`
 }
 
@@ -106,16 +110,25 @@ func coqOptZ(tag int) string {
 const eUnmarshal = -1
 const eBadChallenge = -6
 const eOddForm = -7
+const eUnreplayable = -8
 const eUnknown = -9
 
-func coqBody(b bodySpec, um [3]bool) string {
+func (p *progSpec) coqBody(b bodySpec) string {
+	um := p.refUnmarshalFails(b)
 	f := func(fails bool) string {
 		if fails {
+			if p.UmCustom && b.UmErr != 0 {
+				return coqOptZ(b.UmErr)
+			}
 			return coqOptZ(eUnmarshal)
 		}
 		return "None"
 	}
-	return fmt.Sprintf("(mkBody %s %s %s %s)", coqOptZ(b.ReadErr), f(um[0]), f(um[1]), f(um[2]))
+	rd, tf := coqOptZ(b.ReadErr), "None"
+	if p.Transformer {
+		rd, tf = "None", coqOptZ(b.ReadErr)
+	}
+	return fmt.Sprintf("(mkBody %s %s %s %s %s)", rd, tf, f(um[0]), f(um[1]), f(um[2]))
 }
 
 func (p *progSpec) coqTout(t toutSpec) string {
@@ -126,7 +139,7 @@ func (p *progSpec) coqTout(t toutSpec) string {
 	if p.Checker != 0 {
 		chk = "(Some " + hk.CoqZ(int64(checkers[p.Checker](t.Status))) + ")"
 	}
-	return fmt.Sprintf("(TResp %s %s %s)", hk.CoqZ(int64(t.Status)), chk, coqBody(t.B, refUnmarshalFails(t.B)))
+	return fmt.Sprintf("(TResp %s %s %s)", hk.CoqZ(int64(t.Status)), chk, p.coqBody(t.B))
 }
 
 func (p *progSpec) coqMw(m mwSpec, main toutSpec) string {
@@ -199,8 +212,8 @@ func (p *progSpec) coq() string {
 	if p.Retry {
 		retry = fmt.Sprintf("(Some (%s, %s))", hk.CoqZ(int64(p.Max)), hk.CoqBool(p.Conds))
 	}
-	cfg := fmt.Sprintf("(mkCfg (mkTargets %s %s %s) %s %s %s %s)", hk.CoqBool(p.TResult), hk.CoqBool(p.TError), hk.CoqBool(p.TCommon),
-		hk.CoqBool(p.AutoRead == 0), hk.CoqBool(p.OnError), retry, coqOptZ(p.ReqErr))
+	cfg := fmt.Sprintf("(mkCfg (mkTargets %s %s %s) %s %s %s %s %s)", hk.CoqBool(p.TResult), hk.CoqBool(p.TError), hk.CoqBool(p.TCommon),
+		hk.CoqBool(p.AutoRead == 0), hk.CoqBool(p.OnError), retry, coqOptZ(p.ReqErr), hk.CoqBool(p.Unreplayable))
 	return fmt.Sprintf("(mkProg %s %s %s)", entry, cfg, hk.CoqList(as))
 }
 
